@@ -257,15 +257,44 @@ func collectFmtFacts(w *World, ctxs map[string]*CtxInfo) *fmtFacts {
 	for _, fn := range formatterFuncs(w) {
 		handled := map[string]bool{}
 		// type tests in this function and in the helpers it hands tree nodes to (not other visitor methods)
-		helperSet := map[*ssa.Function]bool{fn: true}
+		// A helper may also be entered through a function value (a handler picked from a table of functions, a closure made by an
+		// adapter): the value is followed to the functions it can be, with the helper's parameters bound to what this caller passes.
+		type helperAt struct {
+			g    *ssa.Function
+			site ssa.CallInstruction
+		}
+		helperSet := map[helperAt]bool{}
 		helpers := []*ssa.Function{fn}
-		for i := 0; i < len(helpers); i++ {
+		helperBind := []bindings{nil}
+		for i := 0; i < len(helpers) && i < 64; i++ {
+			hb := helperBind[i]
 			forEachInstr(helpers[i], func(_ *ssa.BasicBlock, ins ssa.Instruction) {
-				if c, ok := ins.(ssa.CallInstruction); ok {
-					if g := c.Common().StaticCallee(); g != nil && g.Pkg == w.Parser && !helperSet[g] && g.Blocks != nil && !strings.HasPrefix(g.Name(), "Visit") {
-						helperSet[g] = true
-						helpers = append(helpers, g)
+				c, ok := ins.(ssa.CallInstruction)
+				if !ok || c.Common().IsInvoke() {
+					return
+				}
+				var callees []*ssa.Function
+				if g := c.Common().StaticCallee(); g != nil {
+					callees = []*ssa.Function{g}
+				} else if _, isB := c.Common().Value.(*ssa.Builtin); !isB {
+					callees, _ = w.fnValueTargets(c.Common().Value, hb)
+				}
+				for _, g := range callees {
+					if pkgOfFunc(g) != w.Parser || g == fn || helperSet[helperAt{g, c}] || g.Blocks == nil || strings.HasPrefix(g.Name(), "Visit") {
+						continue
 					}
+					helperSet[helperAt{g, c}] = true
+					helpers = append(helpers, g)
+					nb := bindings{}
+					for k, v := range hb {
+						nb[k] = v
+					}
+					for k, p := range g.Params {
+						if k < len(c.Common().Args) {
+							nb[p] = c.Common().Args[k]
+						}
+					}
+					helperBind = append(helperBind, nb)
 				}
 			})
 		}
